@@ -68,6 +68,7 @@ SKIP = ("volume", "area", "maxAssemNum")
 ENTRY_PARAMS = ("assemNum", "numMoves", "daysSinceLastMove", "chargeTime", "chargeCycle", "chargeFis", "chargeBu")
 ROTATED_BLOCK_PARAMS = ("orientation", "displacementX", "displacementY", "assemNum")
 NUCS = ["U235", "U238", "ZR", "NA23", "FE56", "B10", "C"]
+SITES = [(2, -1), (1, 0), (0, 1), (-1, 2), (1, 1), (-2, 1), (0, -2), (3, -1)]  # off-centre lattice sites
 
 
 # ---------------------------------------------------------------------------------------------
@@ -111,6 +112,12 @@ def strategy(tier):
             "groups": st.integers(1, 4),
             "ndens": st.lists(st.tuples(st.integers(0, 10**6), st.integers(0, 10**6), st.floats(0.1, 3.0)).map(list), max_size=3),
             "rot": st.lists(st.tuples(st.integers(0, 10**6), st.integers(1, 4)).map(list), max_size=3),
+            # children of pin-lattice blocks moved to ONE off-centre lattice site (IndexLocation) or to free coordinates
+            "sites": st.lists(st.tuples(st.integers(0, 10**6), st.integers(0, 10**6), st.integers(0, len(SITES) - 1),
+                                        st.sampled_from(["index", "index", "coord"])).map(list), min_size=1, max_size=3),
+            # leading convert/restore rounds on ONE changer object (re-use after reset()); "double" = a second restore at the end
+            "rounds": st.sampled_from([0, 0, 0, 2, 2, 3]),
+            "double": st.booleans(),
             "enabled": st.lists(st.sampled_from(sorted(set(OPS))), min_size=3, max_size=8, unique=True),
             "program": st.lists(_op(), min_size=3, max_size=12),
         }
@@ -192,6 +199,9 @@ class _Run:
         self.edger = None
         self.flags_cleared = False  # an edge addition that added nothing happened and no assembly was added/removed since
         self.late = []  # (assembly index, block index, name) of centre values first assigned while the core was full
+        self.restored_changer = None  # the changer whose restore was the last symmetry change
+        self.changer_uses = 0  # conversions done by the current changer object
+        self.rounds_done = 0
         self.counts = {}
 
     # -- helpers ------------------------------------------------------------------------------
@@ -210,17 +220,17 @@ class _Run:
 
         return ob.observe(self.core, params=True, only_saved=False, serial=True, derived=True, skip_params=SKIP)
 
-    def take_third_snapshot(self):
+    def take_third_snapshot(self, snap=None, mass=None):
         """Expected state of the third core without edge assemblies + the identity tables that go with it."""
         core = self.core
-        self.s3 = self.snap()
+        self.s3 = snap if snap is not None else self.snap()
         self.s3_index = {id(a): n for n, a in enumerate(core)}
         self.s3_assems = list(core)
         self.s3_byloc = {(int(k.i), int(k.j), int(k.k)): v for k, v in core.childrenByLocator.items()}
         self.s3_byname = dict(core.assembliesByName)
         self.s3_blocks = dict(core.blocksByName)
         self.s3_labels = {a.getLocation(): a for a in core}
-        self.s3_mass = self.masses()
+        self.s3_mass = mass if mass is not None else self.masses()
         self.s3_dirty_mass = False
         self.s3_sfp = self.sfp_len()
 
@@ -270,6 +280,25 @@ class _Run:
         assems = list(self.core)
         for ai, k in case.get("rot", []):
             assems[ai % len(assems)].rotate(math.radians(60.0 * k))  # some assemblies are already rotated (k = 1..4)
+        from armi.reactor import grids
+
+        gridded = [b for b in blocks if b.spatialGrid is not None]
+        self.nsites = 0
+        for bi, ci, si, mode in case.get("sites", []):
+            if not gridded:
+                break
+            b = gridded[bi % len(gridded)]
+            single = [c for c in b if not isinstance(c.spatialLocator, grids.MultiIndexLocation)]
+            if not single:
+                continue
+            c = single[ci % len(single)]
+            i, j = SITES[si]
+            if mode == "index":
+                c.spatialLocator = b.spatialGrid[i, j, 0]  # HexBlock.rotate documents the IndexLocation branch
+            else:
+                x, y = hm.centre(i, j, 0.75, False)
+                c.spatialLocator = grids.CoordinateLocation(x, y, 0.0, b.spatialGrid)
+            self.nsites += 1
         comps = [c for b in blocks for c in b if c.getNumberDensities()]
         for ci, ni, f in case["ndens"]:
             c = comps[ci % len(comps)]
@@ -340,6 +369,7 @@ class _Run:
                          % (bi, name, got[name], exp[name]))
                 got[name] = exp[name]
         self.late = []
+        nfail = len(out.violations)
         for x in ob.diff(self.s3, now, limit=5):
             out.fail(sig + "/state-differs/" + _bucket(x), "core after %s differs from the third core before: %s" % (what, x))
         # lookup tables: same keys bound to the same objects
@@ -373,12 +403,16 @@ class _Run:
             if not out.check(got is None, sig + "/removed-location-still-resolves", lambda: "label %s still resolves to %r" % (label, got)):
                 break
         out.check(self.sfp_len() == self.s3_sfp, sig + "/spent-fuel-pool-changed", lambda: "pool holds %r assemblies, %r before" % (self.sfp_len(), self.s3_sfp))
+        m = None
         if not self.s3_dirty_mass:
             m = self.masses()
             for k in sorted(m):
                 out.check(_rel_ok(m[k], self.s3_mass[k], abs(self.s3_mass[k]), 1e-13), sig + "/mass-or-volume-differs",
                           lambda: "%s: %r after %s, %r before" % (k, m[k], what, self.s3_mass[k]))
-        self.take_third_snapshot()
+        if len(out.violations) == nfail:
+            self.take_third_snapshot(snap=now, mass=m)  # equal to the expectation (centre values within 4 ulp taken as expected)
+        else:
+            self.take_third_snapshot()
 
     # -- reference totals before a conversion ---------------------------------------------------
     def totals(self, blocks):
@@ -433,7 +467,8 @@ class _Run:
         else:
             ref_mass = self.masses()
             ref_sym = {name: core.calcTotalParam(name, generationNum=2, addSymmetricPositions=True) for name, kind, vi in self.P if kind == "f" and vi}
-        src_records = {cell: _copy_record(a) for cell, a in src_cells.items()}
+        light = bool(op.get("light"))  # later leading rounds: the copies were compared with their sources in the first round
+        src_records = {} if light else {cell: _copy_record(a) for cell, a in src_cells.items()}
         src_serials = set(_serials(core))
         centre = src_cells.get((0, 0))
         c = 1 if centre is not None else 0
@@ -441,11 +476,15 @@ class _Run:
 
         if self.changer is None or op["fresh"]:
             self.changer = gc.ThirdCoreHexToFullCoreChanger(self.cs)
+            self.changer_uses = 0
         changer = self.changer
         if op["via"] == "core":
             changer = self.changer = core.growToFullCore(self.cs)
+            self.changer_uses = 0
         else:
             changer.convert(self.r)
+        self.changer_uses += 1
+        self.restored_changer = None
         self.state = "FULL"
         self.count("convert:from-edge" if from_edge else "convert")
         self.removed_labels = set()
@@ -483,7 +522,8 @@ class _Run:
                 seen_ids[id(o)] = cell
             label = "%03d-%03d" % _ring_pos(cell)
             out.check(a.getLocation() == label, "convert/copy-location-label", lambda: "copy at %s reports %s expected %s" % (cell, a.getLocation(), label))
-            self.check_copy(a, src, src_records[scell], k, cell, src_serials)
+            if not light:
+                self.check_copy(a, src, src_records[scell], k, cell, src_serials)
         for src in sources:
             shared = [o for o in _walk(src) if id(o) in seen_ids]
             out.check(not shared, "convert/copy-shares-objects-with-source", lambda: "%r shared between %r and the copy at %s" % (shared[0], src, seen_ids[id(shared[0])]))
@@ -560,15 +600,30 @@ class _Run:
                     out.check(ln[0] == "multi" and sorted(ln[1]) == exp, "convert/copy-pin-lattice-not-rotated", lambda: "cell %s block %d component %d: %s expected %s" % (cell, bi, ci, ln, exp))
                 elif ls[0] == "coord":
                     ex, ey = hm.rot_xy(ls[1][0], ls[1][1], 120.0 * k)
-                    out.check(ln[0] == "coord" and abs(ln[1][0] - ex) <= 1e-9 and abs(ln[1][1] - ey) <= 1e-9 and ln[1][2] == ls[1][2], "convert/copy-component-location", lambda: "%s -> %s" % (ls, ln))
+                    out.check(ln[0] == "coord" and abs(ln[1][0] - ex) <= 1e-9 and abs(ln[1][1] - ey) <= 1e-9 and ln[1][2] == ls[1][2], "convert/copy-free-coordinate-child-not-rotated",
+                              lambda: "cell %s block %d component %d: %s -> %s, expected (%r, %r)" % (cell, bi, ci, ls[1], ln[1], ex, ey))
+                elif ls[0] == "index":
+                    exp = hm.rotate60(ls[1][0], ls[1][1], rot) + (ls[1][2],)
+                    out.check(ln[0] == "index" and tuple(ln[1]) == exp, "convert/copy-single-site-child-not-rotated",
+                              lambda: "cell %s block %d component %d: site %s -> %s, expected %s (rotation %d deg)" % (cell, bi, ci, ls[1], ln[1], list(exp), 120 * k))
                 else:
-                    out.check(ln == ls or (ls[0] == "index" and ln[0] == "index" and tuple(ln[1]) == hm.rotate60(ls[1][0], ls[1][1], rot) + (ls[1][2],)),
-                              "convert/copy-component-location", lambda: "%s -> %s" % (ls, ln))
+                    out.check(ln == ls, "convert/copy-component-location", lambda: "%s -> %s" % (ls, ln))
 
     def op_restore(self, op):
         core, out = self.core, self.out
         if self.state != "FULL":
-            return  # restore is only documented after convert, on the changer that converted
+            if self.state == "THIRD" and self.restored_changer is not None:
+                # a second restore on the changer that just restored: nothing is left to undo ("if bool(self._newAssembliesAdded)")
+                before = self.snap()
+                try:
+                    self.restored_changer.restorePreviousGeometry(self.r)
+                except Exception as exc:  # noqa: BLE001
+                    out.fail("restore/raises-instead-of-restoring", "second restorePreviousGeometry on the same changer (round %d): %s: %s" % (self.rounds_done, type(exc).__name__, exc))
+                    self.state = "BROKEN"
+                    return
+                self.expect_unchanged(before, "restore-twice")
+                self.count("restore:twice")
+            return  # otherwise restore is only documented after convert, on the changer that converted
         if self.centre() is None and self.excluded(SIG_NOCENTRE):
             out.label("excluded:" + SIG_NOCENTRE)
             return
@@ -577,15 +632,19 @@ class _Run:
                 self.changer.restorePreviousGeometry()
             else:
                 self.changer.restorePreviousGeometry(self.r)
-        except TypeError:
-            if self.centre() is None:
+        except Exception as exc:  # noqa: BLE001  (only the armi call is inside the try)
+            if isinstance(exc, TypeError) and self.centre() is None:
                 out.fail(SIG_NOCENTRE, "restorePreviousGeometry raises TypeError ('NoneType' object is not iterable) when the core has no centre assembly; "
                          "the added assemblies are removed, the converter is not reset")
-                self.state = "BROKEN"
-                return
-            raise
+            else:
+                out.fail("restore/raises-instead-of-restoring", "restorePreviousGeometry, conversion no. %d of this changer object: %s: %s"
+                         % (self.changer_uses, type(exc).__name__, exc))
+            self.state = "BROKEN"
+            return
         self.state = "THIRD"
-        self.count("restore")
+        self.rounds_done += 1
+        self.restored_changer = self.changer
+        self.count("restore" if self.changer_uses <= 1 else "restore:reused-changer")
         self.check_back_to_third("restore", scaled_centre=True)
 
     def op_add_edge(self, op):
@@ -621,6 +680,7 @@ class _Run:
             return
         before_cells = {self.ij(a): a for a in core}
         src_serials = set(_serials(core))
+        self.restored_changer = None
         self.edger = gc.EdgeAssemblyChanger()
         self.edger.addEdgeAssemblies(core)
         self.state = "EDGE"
@@ -735,6 +795,18 @@ class _Run:
         if not enabled & {"full", "edge", "convert", "addEdge"}:
             enabled.add("full")  # every program changes the symmetry at least once
         no_lower = not any(hm.symmetry_line(*self.ij(a)) == 0 for a in self.core)
+        # deliberate shape: N convert/restore rounds on one changer object, then optionally a second restore
+        tmpl = {"op": "full", "obj": 0, "obj2": 0, "pidx": 0, "v": 1.0, "centre": False, "late": False, "fresh": False, "via": "changer", "factor": 1.0}
+        rounds = self.case.get("rounds", 0)
+        for n in range(rounds):
+            for kind in ("convert", "restore"):
+                if self.state == "BROKEN":
+                    break
+                getattr(self, "op_" + kind)(dict(tmpl, op=kind, light=n > 0))
+                if self.state != "BROKEN":
+                    self.check_tables("after %s of leading round %d" % (kind, n + 1))
+        if rounds and self.case.get("double") and self.state == "THIRD":
+            self.op_restore(dict(tmpl, op="restore"))
         for n, op in enumerate(self.case["program"]):
             kind = op["op"]
             if kind not in enabled or self.state == "BROKEN":
@@ -858,19 +930,22 @@ def execute(case):
               "on-0-degree-line:%s" % ("0" if online == 0 else "1" if online == 1 else "2+"),
               "pin-grid" if any(d["pinGrid"] for d in run.spec["designs"]) else "no-pin-grid", "final:" + run.state.lower())
     out.label(*["op:" + k for k in sorted(did)])
-    if did.get("restore") and (did.get("assign:full:centre") or did.get("assign:full")):
+    if (did.get("restore") or did.get("restore:reused-changer")) and (did.get("assign:full:centre") or did.get("assign:full")):
         out.label("assign-between-convert-and-restore")
-    if did.get("convert:from-edge") and did.get("restore"):
+    if run.nsites:
+        out.label("single-site-children")
+    if did.get("convert:from-edge") and (did.get("restore") or did.get("restore:reused-changer")):
         out.label("edge-convert-restore")
     return out
 
 
 PARTS = [
-    Part("programs", execute, strategy=strategy, budget={"quick": 220, "thorough": 20000}, procs={"quick": 6, "thorough": 16},
+    Part("programs", execute, strategy=strategy, budget={"quick": 210, "thorough": 20000}, procs={"quick": 6, "thorough": 16},
          rule="Hypothesis: third-core hex reactor from blueprint text (2-5 rings, holes, centre assembly dropped in 1 of 5, flats/corners up, pin "
               "lattices), initial values for a drawn subset of 24 block parameters (14 volume integrated; scalars, lists, arrays, 6-vectors on "
               "corners/edges, displacement) and composition edits, then a program of <= 12 steps over convert (changer or Core.growToFullCore) / "
-              "restorePreviousGeometry / addEdgeAssemblies / removeEdgeAssemblies / parameter assignment / number-density edit with a swarm subset "
+              "restorePreviousGeometry (0-3 leading convert/restore rounds re-use ONE changer object, optional second restore; pin-lattice blocks "
+              "carry children on a single off-centre site or at free coordinates) / addEdgeAssemblies / removeEdgeAssemblies / parameter assignment / number-density edit with a swarm subset "
               "of enabled kinds; non-trivial = centre assembly present, >= 1 assembly on the 0-degree symmetry line and at least one effective "
               "conversion or edge addition; oracle: rotation closure of the cells, copies equal to their source up to the documented rotation, "
               "identity-disjoint, unique names/serials, x3 on mass per nuclide / volume / parameter totals, observe() snapshot + identity of the "
